@@ -251,6 +251,7 @@ pub mod shims;
 #[cfg(feature = "c14")] pub mod c14;
 #[cfg(feature = "c15")] pub mod c15;
 #[cfg(feature = "c17")] pub mod c17;
+#[cfg(feature = "c17")] pub mod c17_prog;
 #[cfg(feature = "c18")] pub mod c18;
 
 #[cfg(feature = "native")]
